@@ -738,6 +738,40 @@ def check_generation_invalid(ctx, env, pair):
     ctx.violation('generation-key-invalid-accepted', f'Generation.Key({value!r}) -> {key!r}', {'kind': 'generation-invalid', 'value': pair})
 
 
+def check_level_invalid(ctx, env, pair):
+    """An invalid generation key used to *address* a generation of a populated release (``release.get(key)``, what
+    ``asset.Instance(project, release, key, directory)`` does): refused - never resolved to some existing generation."""
+    import datetime
+
+    asset, project = env.asset, env.project
+    value = env.o.dec(pair)
+    if value is None:
+        return  # None legitimately means "the latest"
+    ctx.count('evaluations')
+    ctx.count('level_invalid_checked')
+    if getattr(env, 'populated', None) is None:
+        root = env.scratch()
+        registry = env.volatile.Registry()
+        project.Manifest('levels', '1', 'nothing').write(root / 'pkg')
+        registry.push(project.Package(root / 'pkg'))
+        release = asset.Directory(registry).get('levels').get('1')
+        for number in (1, 2):
+            registry.close(release.project.key, release.key, asset.Generation.Key(number),
+                           asset.Tag(training=asset.Tag.Training(datetime.datetime(2020, 1, number), number)))
+        env.populated = registry
+    witness = {'kind': 'level-invalid', 'value': pair}
+    try:
+        generation = asset.Directory(env.populated).get('levels').get('1').get(value)
+        resolved = (int(generation.key), generation.tag.training.ordinal)
+    except (asset.Level.Invalid, TypeError, ValueError) as err:
+        ctx.note_set('level_rejection_types', type(err).__name__)
+        return
+    except Exception as err:  # pylint: disable=broad-except
+        ctx.violation('level-key-invalid-wrong-error', f'release.get({value!r}) raised {err!r}', witness)
+        return
+    ctx.violation('level-key-invalid-resolved', f'release.get({value!r}) resolved to generation {resolved[0]} (ordinal {resolved[1]})', witness)
+
+
 # ---------------------------------------------------------------------------------------------------- listings
 def listing_problem(env, listing, valid, order):
     """listing: forml Listing; valid: the texts/ints that belong in it; order: item -> oracle key.  None if the listing is strictly
@@ -1111,6 +1145,13 @@ def directed(ctx, env):
                                              dict(base, kind=kind, package=f'ree{kind}', version='1.0.dev2', threshold=4, marks=['m4'])]})
     for pair in o.INVALID_GENERATIONS:
         check_generation_invalid(ctx, env, pair)
+        check_level_invalid(ctx, env, pair)
+    for pair in ({'k': 'bool', 'v': 'false'}, {'k': 'bool', 'v': 'true'}):
+        try:
+            o.dec(pair)
+        except Exception:  # pylint: disable=broad-except
+            continue
+        check_level_invalid(ctx, env, pair)
     for text in o.LENIENT_GENERATIONS:
         try:
             env.asset.Generation.Key(text)
@@ -1216,6 +1257,8 @@ def replay(ctx, witness):
             check_release_candidate(ctx, env, witness['text'])
         elif kind == 'generation-keys':
             check_generation_keys(ctx, env, [int(n) for n in witness['numbers']], witness['as_text'])
+        elif kind == 'level-invalid':
+            check_level_invalid(ctx, env, witness['value'])
         elif kind == 'generation-invalid':
             check_generation_invalid(ctx, env, witness['value'])
         elif kind == 'listing':
